@@ -158,6 +158,36 @@ class EndToEndStream(Stream):
     def classify(self, case, failure):
         return G.shape_of(failure)
 
+    # ---- the model's routing (Model.route) against what the CLI did, for single files without a sibling
+    def model_lines(self, case):
+        if len(case["files"]) != 1 or case["files"][0].get("sib") is not None:
+            return []
+        binary = "1" if case["files"][0].get("kind") == "binary" else "0"
+        flags = "".join("1" if x else "0" for x in (case.get("dot") == "force", case.get("dot") == "fallback", case.get("dot") == "skip",
+                                                    case.get("line") == "single", case.get("line") == "multi")) + binary
+        return ["route\t%s\t%s\t%s" % (case.get("style") or "-", flags, enc(case["files"][0]["name"]))]
+
+    def agree(self, case, impl_out, model_out):
+        if impl_out.startswith("EXC"):
+            return False
+        out = json.loads(impl_out)
+        name = case["files"][0]["name"]
+        kind = model_out.split(":")[0]
+        if out["rec"]["binary"].get(name) != (case["files"][0].get("kind") == "binary"):
+            return True          # binaryornot disagrees with the generator's label: the model was given the wrong oracle value
+        if kind == "crash":
+            return False
+        rc, changed = out["rc"], out["rec"]["changed"]
+        if rc == 2:
+            return kind == "usage"
+        if kind == "usage":
+            return False
+        if rc == 0 and changed == [name]:
+            return kind == "file"
+        if rc == 0 and changed == [name + ".license"]:
+            return kind == "dot"
+        return True
+
     def nontrivial(self, case, impl_out):
         if impl_out.startswith("EXC"):
             return None
@@ -174,9 +204,150 @@ class EndToEndStream(Stream):
         return c
 
 
+class FileTieStream(annotcorr.AnnotateStream):
+    """Theorem-hypothesis tie for C07_file_partial: the driver evaluates the theorem's decidable hypotheses on every case;
+    where they hold, the *implementation* must show the theorem's conclusion: extraction of the whole written file (real
+    extract_reuse_info) yields everything requested and everything the replaced header block declared."""
+    name = "filetie"
+    rule = ("the cases of the annotate stream (other seed): the driver evaluates the hypotheses of C07_file_partial (LF line endings, no "
+            "--merge-copyrights, no ignore region opens in the written text, tag values of the header block are found in the whole "
+            "text) and its conclusion; where the hypotheses hold the real add_header_to_file must have written the same text and the "
+            "real extract_reuse_info on the whole of it must yield the requested notices and expressions and those of the replaced "
+            "block; non-trivial = hypotheses hold")
+
+    def model_out(self, case, outs):
+        from core import run_driver
+        from reuse import _LICENSING
+        bad = []
+        for v in set(dec_list(outs[0]) + dec_list(outs[1])):
+            try:
+                _LICENSING.parse(v)
+            except Exception:
+                bad.append(v)
+        bad = enc_list(sorted(bad))
+        args = (case["s"], case["f"], enc_list(case["cpr"]), enc_list(case["con"]), enc_list(case["lic"]), bad, enc(self._text(case)))
+        info = run_driver(["hdrinfo\t%s\t%s\t%s\t%s\t%s\t%s\t%s" % args])[0]
+        if info == "none" or case["tmpl"] == "default":
+            tm = "default"
+        else:
+            c, n, l = (dec_list(x) for x in info.split("|"))
+            tm = "rendered:" + enc(annotcorr.render_with(case["tmpl"], c, n, l))
+        line = "c07file\t%s\t%s\t%s\t%s\t%s\t%s\t%s\t%s" % (case["s"], case["f"], tm, enc_list(case["cpr"]), enc_list(case["con"]),
+                                                              enc_list(case["lic"]), bad, enc(self._text(case)))
+        return run_driver([line])[0]
+
+    def agree(self, case, impl_out, model_out):
+        if not model_out.startswith("H1"):
+            return True        # the theorem says nothing here
+        h, c, p, l, w = model_out.split("|", 4)
+        if c != "C1" or impl_out != w:
+            return False
+        from reuse.extract import extract_reuse_info
+        try:
+            info = extract_reuse_info(dec(impl_out[2:]))
+        except Exception:
+            return True        # a raw value elsewhere in the file does not parse: the theorem speaks of raw values, lint drops the file
+        self._hyp = getattr(self, "_hyp", set())
+        self._hyp.add(json.dumps(case, sort_keys=True))
+        got_cpr, got_lic = set(info.copyright_lines), {str(x) for x in info.spdx_expressions}
+        want_cpr = set(case["cpr"]) | set(dec_list(p[1:]))
+        want_lic = {G.norm_lic(x) for x in case["lic"] + dec_list(l[1:])}
+        return want_cpr <= got_cpr and want_lic <= got_lic
+
+    def nontrivial(self, case, impl_out):
+        return impl_out if json.dumps(case, sort_keys=True) in getattr(self, "_hyp", ()) else None
+
+
+class StyleOfStream(Stream):
+    name = "styleof"
+    exhaustive = True
+    rule = ("get_comment_style on a name for every entry of the two live tables (as is, upper-cased, lower-cased, below a directory), on "
+            "the `NAME.license` of each, and on names outside the tables (no extension, dot files, double extensions such as x.nim.cfg, "
+            "trailing dot, Kelvin sign for k); model: Model.commentStyleName over the generated tables; non-trivial = distinct (name, style)")
+
+    def cases(self, tier, rng):
+        for kind, key, style in G.table_entries():
+            n = G.name_for(kind, key)
+            for v in (n, n.upper(), n.lower(), "dir.d/" + n, n + ".license", n + ".", n + ".bak", "x" + n):
+                yield {"p": v}
+        for n in G.UNRECOGNISED + ["", ".", "..", ".license", "a.license", ".py", "py", "x.nim.cfg", "x.cfg", "Ma\u212aefile", "ma\u212aefile", "x.\u212a",
+                                   "x.PY", "a/b.c/d", "a.b/c", "README", "x.tar.gz", "Makefile.am", "makefile.AM", "x.İ", "é.py", "x.pÝ"]:
+            yield {"p": n}
+
+    def impl(self, case):
+        from reuse.comment import get_comment_style
+        st = get_comment_style(case["p"])
+        return "none" if st is None else st.__name__
+
+    def model_lines(self, case):
+        return ["styleof\t" + enc(case["p"])]
+
+    def nontrivial(self, case, impl_out):
+        return (case["p"], impl_out) if impl_out != "none" else None
+
+
+class NewHeaderStream(Stream):
+    name = "newheader"
+    exhaustive = True
+    rule = ("_create_new_header for every style of the table x {default, forced multi-line} x the ten prefixes x {year, year range, no year} "
+            "x 6 holders (non-ASCII, punctuation) x licences / contributors, and 11 templates (rendered by real Jinja, handed to the "
+            "model as text); model: Model.createNewHeader; oracle: a returned header reads back — with extract_reuse_info — exactly "
+            "the requested notices and expressions; non-trivial = distinct header")
+
+    def cases(self, tier, rng):
+        holders = ["Jane Doe", "José Álvarez <j@example.org>", "张三", "R&D, Ltd.", "Eric", "Foo {Bar}"]
+        for st in annotcorr.all_styles():
+            if st.__name__ == "UncommentableCommentStyle":
+                continue
+            for force in ("0", "1"):
+                for i, p in enumerate(G.PREFIX_TEXT):
+                    y = [None, "2020", "2019 - 2021"][i % 3]
+                    h = holders[(i + len(st.__name__)) % len(holders)]
+                    cpr = [G.expected_notice(h, p, y)]
+                    if i % 4 == 0:
+                        cpr.append(G.expected_notice(holders[(i + 1) % len(holders)], "spdx", "1999"))
+                    lic = [G.LICENSES[i % len(G.LICENSES)]] + ([G.LICENSES[(i + 3) % len(G.LICENSES)]] if i % 2 else [])
+                    con = [G.CONTRIBUTORS[i % len(G.CONTRIBUTORS)]] if i % 3 == 0 else []
+                    yield {"s": st.__name__, "f": "0" + force + "000", "tmpl": "default", "cpr": cpr, "lic": [G.norm_lic(x) for x in lic], "con": con}
+            for tmpl in annotcorr.TEMPLATES:
+                if tmpl == "default":
+                    continue
+                yield {"s": st.__name__, "f": ("1" if tmpl in annotcorr.COMMENTED else "0") + "0000", "tmpl": tmpl,
+                       "cpr": ["SPDX-FileCopyrightText: 2020 Jane Doe", "Copyright (C) 2019 José Álvarez"], "lic": ["MIT", "Apache-2.0 OR MIT"], "con": ["Alice"]}
+
+    def impl(self, case):
+        from reuse import ReuseInfo, _LICENSING
+        from reuse.header import _create_new_header
+        from reuse.exceptions import CommentCreateError, MissingReuseInfoError
+        info = ReuseInfo(spdx_expressions={_LICENSING.parse(x) for x in case["lic"]}, copyright_lines=set(case["cpr"]), contributor_lines=set(case["con"]))
+        try:
+            return "ok:" + enc(_create_new_header(info, template=annotcorr.jinja_template(case["tmpl"]), template_is_commented=case["f"][0] == "1",
+                                                  style=annotcorr.style_by_name(case["s"]), force_multi=case["f"][1] == "1"))
+        except CommentCreateError:
+            return "err:create"
+        except MissingReuseInfoError:
+            return "err:missing"
+
+    def model_lines(self, case):
+        tm = "default" if case["tmpl"] == "default" else "rendered:" + enc(annotcorr.render_with(case["tmpl"], sorted(case["cpr"]), sorted(case["con"]), sorted(case["lic"])))
+        return ["newheader\t%s\t%s\t%s\t%s\t%s\t%s" % (case["s"], case["f"], tm, enc_list(case["cpr"]), enc_list(case["con"]), enc_list(case["lic"]))]
+
+    def oracle(self, case, impl_out):
+        if not impl_out.startswith("ok:"):
+            return None
+        got = G.lint_read_bytes(dec(impl_out[3:]).encode("utf-8"))
+        want = (set(case["cpr"]), set(case["lic"]), set())
+        if got is None or got[0] != want[0] or got[1] != want[1]:
+            return "readback-header: _create_new_header returned a header from which %r is read instead of %r" % (got, want)
+        return None
+
+    def nontrivial(self, case, impl_out):
+        return (case["s"], impl_out) if impl_out.startswith("ok") else None
+
+
 PROPERTY = Property(
     pid="C07",
-    streams=[annotcorr.CreateCommentStream(), annotcorr.CommentAtStream(), AnnotateReadbackStream(), EndToEndStream()],
+    streams=[annotcorr.CreateCommentStream(), annotcorr.CommentAtStream(), NewHeaderStream(), AnnotateReadbackStream(), FileTieStream(), StyleOfStream(), EndToEndStream()],
     assumptions=[
         "Jinja2 is outside the model: the template is an arbitrary function in the theorems; in the correspondence the model receives "
         "the text real Jinja rendered for the information the model computed",
